@@ -1,4 +1,5 @@
 pub mod alloc;
+pub mod c17;
 pub mod engine;
 pub mod gen;
 pub mod oracle;
@@ -42,6 +43,9 @@ fn replay_p<P: Prop>(path: &std::path::Path, strict: bool) -> i32 {
 }
 
 pub fn run(id: &str, tier: Tier, seed: u64) -> Option<i32> {
+	if id == "C17" {
+		return Some(c17::run(tier, seed));
+	}
 	dispatch!(id, run_p, tier, seed)
 }
 
